@@ -20,427 +20,132 @@ OPERATOR_FORMS = {
 }
 
 
-class _Rename(ast.NodeTransformer):
-    def __init__(self, mapping: Dict[str, ast.expr]):
-        self.mapping = mapping
-
-    def visit_Name(self, node):
-        if node.id in self.mapping:
-            return copy.deepcopy(self.mapping[node.id])
-        return node
-
-    def visit_Lambda(self, node):
-        inner = {k: v for k, v in self.mapping.items() if k not in {a.arg for a in node.args.args}}
-        node.body = _Rename(inner).visit(node.body)
-        return node
-
-    def visit_Call(self, node):
-        self.generic_visit(node)
-        # operator.add(a, b) -> a + b
-        f = node.func
-        if isinstance(f, ast.Attribute) and isinstance(f.value, ast.Name) and f.value.id == "operator" and f.attr in OPERATOR_FORMS and len(node.args) == 2:
-            sym = OPERATOR_FORMS[f.attr]
-            return ast.parse(f"({ast.unparse(node.args[0])}) {sym} ({ast.unparse(node.args[1])})", mode="eval").body
-        return node
-
-
-def _strip_ensure(e: ast.expr) -> ast.expr:
-    while isinstance(e, ast.Call) and isinstance(e.func, ast.Attribute) and e.func.attr == "ensure" and len(e.args) == 1 and ast.unparse(e.func.value) == "Evaluatable":
-        e = e.args[0]
-    return e
-
-
-def _arg_form(e: ast.expr) -> str:
-    """Canonical text of an argument handed to partial()."""
-    e = _strip_ensure(e)
-    if isinstance(e, ast.Call) and ast.unparse(e.func).endswith("evaluatable_tuple"):
-        parts = []
-        for a in e.args:
-            if isinstance(a, ast.Starred):
-                v = a.value
-                if isinstance(v, ast.Call) and ast.unparse(v.func).endswith("map") and len(v.args) == 2 and ast.unparse(v.args[0]) == "Evaluatable.ensure":
-                    parts.append("*" + ast.unparse(v.args[1]))
-                else:
-                    parts.append("*" + ast.unparse(v))
-            else:
-                parts.append(_arg_form(a))
-        return "TUPLE(" + ", ".join(parts) + ")"
-    return ast.unparse(e)
-
-
-def outcomes(repo, module, fn, env=None) -> List[str]:
-    """Canonical behaviour of a small function: the sorted set of
-    ``<pure path conditions> -> <returned term | raised term>`` over all paths
-    (independent of statement order, guard-clause vs if/else form, locals)."""
-    from .interp import Ctx, Frame, analyse_function
-    out = set()
-    for p in analyse_function(Ctx(repo), module, fn, env):
-        cs = set()
-        for c in p.conds:
-            if c[2]:
-                k, pol = Frame.norm_cond(c[2], c[1])
-                cs.add(f"{k}={'T' if pol else 'F'}")
-            else:
-                cs.add(c[0])
-        if p.status == "ret":
-            o = "ret " + (p.ret.key() if p.ret is not None else "None")
-        else:
-            rev = [e for e in p.events if e.kind == "raise"]
-            o = "raise " + (rev[-1].target.key() if rev and rev[-1].target is not None else (p.exc[0] if p.exc else "?"))
-        out.add(" & ".join(sorted(cs)) + " -> " + o)
-    return sorted(out)
-
-
-class Normaliser:
-    def __init__(self, run: Run):
-        self.run = run
-        self.mod = run.repo.modules.get("labrea.functions")
-        if self.mod is None:
-            raise AnalysisError("labrea/functions.py not found")
-        self.funcs: Dict[str, ast.FunctionDef] = {}
-        self.instances: Dict[str, ast.expr] = {}
-        for s in self.mod.tree.body:
-            if isinstance(s, ast.FunctionDef) and not any("overload" in ast.unparse(d) for d in s.decorator_list):
-                self.funcs[s.name] = s
-            elif isinstance(s, ast.Assign) and len(s.targets) == 1 and isinstance(s.targets[0], ast.Name) and isinstance(s.value, ast.Call):
-                self.instances[s.targets[0].id] = s.value
-
-    def _private_call_resolver(self, call: ast.Call):
-        """Private module-level helpers that are *called* to build an argument (not handed to
-        partial()) are replaced by their single returned expression."""
-        f = call.func
-        if isinstance(f, ast.Name) and f.id.startswith("_") and f.id in self.funcs:
-            return self.funcs[f.id], False
-        return None
-
-    # -- partial(f, *pos, **kw) -> canonical body
-    def partial_form(self, call: ast.Call) -> str:
-        if not call.args:
-            return "?"
-        f = call.args[0]
-        pos = call.args[1:]
-        kw = {k.arg: k.value for k in call.keywords if k.arg}
-        target = None
-        if isinstance(f, ast.Lambda):
-            target = f
-            params = [a.arg for a in f.args.posonlyargs + f.args.args]
-            body = f.body
-        elif isinstance(f, ast.Name) and f.id in self.funcs:
-            target = self.funcs[f.id]
-            params = [a.arg for a in target.args.posonlyargs + target.args.args]
-            body = None
-        else:
-            # external callable, e.g. builtins.map
-            args = [_arg_form(a) for a in pos] + ["INPUT"] + [f"{k}={_arg_form(v)}" for k, v in kw.items()]
-            return f"{ast.unparse(f)}({', '.join(args)})"
-        mapping: Dict[str, ast.expr] = {}
-        i = 0
-        for a in pos:
-            if i >= len(params):
-                return "?too-many-positional"
-            mapping[params[i]] = ast.Name(id=f"⟨{_arg_form(a)}⟩", ctx=ast.Load())
-            i += 1
-        for k, v in kw.items():
-            if k in mapping:
-                return f"?multiple-values-for-{k}"
-            if k not in params:
-                return f"?unknown-keyword-{k}"
-            mapping[k] = ast.Name(id=f"⟨{_arg_form(v)}⟩", ctx=ast.Load())
-        free = [p_ for p_ in params if p_ not in mapping]
-        # the pipeline input binds the first free positional parameter; a
-        # keyword-bound parameter *before* it would be hit again -> TypeError
-        if not free:
-            return "?no-free-parameter"
-        first_free = params.index(free[0])
-        for k in kw:
-            if params.index(k) < first_free:
-                return f"?input-collides-with-keyword-{k}"
-        for j, p_ in enumerate(free):
-            mapping[p_] = ast.Name(id="INPUT" if len(free) == 1 else f"INPUT{j}", ctx=ast.Load())
-        if body is not None:
-            red = _Rename(mapping).visit(copy.deepcopy(body))
-            return ast.unparse(red)
-        # named helper: show the binding and reduce its single-return body if any
-        return f"{f.id}(" + ", ".join(f"{p_}={ast.unparse(mapping[p_])}" for p_ in params) + ")"
-
-    def step_form(self, e: ast.expr, env: Dict[str, ast.expr] = None) -> str:
-        """Canonical form of the first argument of PipelineStep(...)."""
-        e = _strip_ensure(e)
-        if isinstance(e, ast.Call):
-            fn = ast.unparse(e.func)
-            if fn == "partial":
-                return "λ " + self.partial_form(e)
-            if fn == "PipelineStep":
-                return self.step_form(e.args[0])
-            if isinstance(e.func, ast.Name) and e.func.id in self.funcs:
-                args = [self.step_form(a) if isinstance(a, (ast.Call, ast.Lambda, ast.BinOp)) else ("*" + ast.unparse(a.value) if isinstance(a, ast.Starred) else ast.unparse(a)) for a in e.args]
-                return f"{e.func.id}({', '.join(args)})"
-            if fn == "Pipeline" and not e.args:
-                return "ID"
-            if fn == "sum" and len(e.args) == 2 and isinstance(e.args[0], (ast.List, ast.Tuple)) and not e.keywords:
-                # sum([a, b, c], start) is start + a + b + c
-                acc: ast.expr = e.args[1]
-                for it in e.args[0].elts:
-                    acc = ast.BinOp(left=acc, op=ast.Add(), right=it)
-                return self.step_form(acc)
-            return ast.unparse(e)
-        if isinstance(e, ast.BinOp) and isinstance(e.op, ast.Add):
-            return self.step_form(e.left) + " >> " + self.step_form(e.right)
-        if isinstance(e, ast.Lambda):
-            params = [a.arg for a in e.args.args]
-            mapping = {p_: ast.Name(id="INPUT" if len(params) == 1 else f"INPUT{j}", ctx=ast.Load()) for j, p_ in enumerate(params)}
-            return "λ " + ast.unparse(_Rename(mapping).visit(copy.deepcopy(e.body)))
-        if isinstance(e, ast.Name) and e.id in self.funcs and e.id.startswith("_"):
-            f = self.funcs[e.id]
-            return "λ " + self.body_form(f)
-        if isinstance(e, ast.Name) and e.id in self.instances:
-            return e.id
-        return ast.unparse(e)
-
-    def body_form(self, f: ast.FunctionDef) -> str:
-        """Canonical body of a private one-input helper (first param = INPUT)."""
-        params = [a.arg for a in f.args.posonlyargs + f.args.args]
-        mapping = {params[0]: ast.Name(id="INPUT", ctx=ast.Load())} if params else {}
-        sr = astu.simple_return(f)
-        if sr is not None:
-            # locals expanded: `r = E; return r` is `return E`
-            return "return " + ast.unparse(_Rename(mapping).visit(copy.deepcopy(sr)))
-        stmts = [s for s in f.body if not (isinstance(s, ast.Expr) and isinstance(s.value, ast.Constant))]
-        return "; ".join(ast.unparse(_Rename(mapping).visit(copy.deepcopy(s))) for s in stmts)
-
-    def helper_form(self, name: str) -> Optional[str]:
-        form = self._helper_form(name)
-        if form is None or name not in self.funcs:
-            return form
-        f = self.funcs[name]
-        params = [a.arg for a in f.args.posonlyargs + f.args.args + f.args.kwonlyargs]
-        if f.args.vararg:
-            params.append(f.args.vararg.arg)
-        if f.args.kwarg:
-            params.append(f.args.kwarg.arg)
-        # positional names instead of the helper's own parameter names
-        import re as _re
-        for i, p_ in enumerate(params):
-            form = _re.sub(r"(?<![A-Za-z0-9_])" + _re.escape(p_) + r"(?![A-Za-z0-9_=])", f"P{i}", form)
-        return form
-
-    def _helper_form(self, name: str) -> Optional[str]:
-        if name in self.funcs:
-            f = self.funcs[name]
-            inner = {}
-            for s in f.body:
-                if isinstance(s, ast.FunctionDef):
-                    inner[s.name] = s
-            amap_h = astu.single_assign_map(f)
-            rets_ = sorted((s for s in astu.walk_no_nested(f) if isinstance(s, ast.Return) and s.value is not None), key=lambda s: (s.lineno, s.col_offset))
-            forms_ = []
-            for s in rets_:
-                forms_.append(self._return_form(f, s, inner, amap_h))
-            forms_ = [x for x in forms_ if x is not None]
-            uniq_ = []
-            for x in forms_:
-                if x not in uniq_:
-                    uniq_.append(x)
-            # every way the helper can return must compute the same step
-            return " || ".join(uniq_) if uniq_ else None
-        if name in self.instances:
-            v = self.instances[name]
-            if ast.unparse(v.func) == "PipelineStep" and v.args:
-                return self.step_form(v.args[0])
-            if isinstance(v.func, ast.Name) and v.func.id in self.funcs:
-                return f"{v.func.id}({', '.join(ast.unparse(a) for a in v.args)})"
-        return None
-
-    def _return_form(self, f, s, inner, amap_h) -> Optional[str]:
-        """Canonical form of one ``return PipelineStep(<callable>, …)`` of a helper."""
-        v_ = s.value
-        keep_ = frozenset(a.arg for a in f.args.posonlyargs + f.args.args + f.args.kwonlyargs)
-        if not (isinstance(v_, ast.Call) and ast.unparse(v_.func) == "PipelineStep" and v_.args):
-            # a local holding the step; parameters that are re-bound (defaults filled in) stay parameters
-            amap_nb = {k: v for k, v in amap_h.items() if k not in keep_}
-            v_ = astu.expand_locals(v_, amap_nb)
-            if isinstance(v_, ast.Call) and ast.unparse(v_.func) == "PipelineStep" and v_.args:
-                v_ = ast.Call(func=v_.func, args=[astu.expand_locals(v_.args[0], amap_nb)] + list(v_.args[1:]), keywords=v_.keywords)
-            if not (isinstance(v_, ast.Call) and ast.unparse(v_.func) == "PipelineStep" and v_.args):
-                return None
-        a0 = v_.args[0]
-        if isinstance(a0, ast.Name) and a0.id in amap_h and a0.id not in inner:
-            a0 = astu.expand_locals(a0, amap_h)
-        elif not isinstance(a0, (ast.Name, ast.Lambda)):
-            # locals used inside the expression (``stages = [...]; … sum(stages, Pipeline())``)
-            a0 = astu.expand_locals(a0, {k: v for k, v in amap_h.items() if k not in keep_ and k not in inner})
-        a0 = astu.inline_helpers(a0, self._private_call_resolver)
-        if isinstance(a0, ast.Name) and a0.id in inner:
-            g = inner[a0.id]
-            if any(ast.unparse(d) == "pipeline_step" for d in g.decorator_list):
-                ps = [a.arg for a in g.args.args]
-                defaults = dict(zip(ps[len(ps) - len(g.args.defaults):], g.args.defaults))
-                env = {ps[0]: Sym("INPUT")}
-                for k, v in defaults.items():
-                    env[k] = Sym(f"⟨{_arg_form(v)}⟩")
-                return "step " + " | ".join(outcomes(self.run.repo, self.mod, g, env))
-        return self.step_form(a0)
-
-
-# canonical forms confirmed against each helper's docstring (INPUT = the value
-# flowing through the pipeline, ⟨x⟩ = the helper's parameter x evaluated from options)
+# canonical forms confirmed against each helper's docstring.  INPUT = the value flowing through the pipeline,
+# ⟨Pi⟩ = the helper's i-th parameter evaluated from the options, ``a >> b`` = a then b, ``{c -> ret v | …}`` = the
+# paths of a named function under that binding, ``c ⇒ f || d ⇒ g`` = the step built under construction-time tests.
 EXPECTED = {
-    "map": "λ builtins.map(P0, INPUT)",
-    "filter": "λ builtins.filter(P0, INPUT)",
-    "reduce": "λ _reduce(func=⟨P0⟩, iterable=INPUT, initial=⟨P1⟩)",
-    "into": "step call:isinstance(INPUT,ext<typing.Mapping>)=F -> ret call:⟨P0⟩(star(INPUT)) | call:isinstance(INPUT,ext<typing.Mapping>)=T -> ret call:⟨P0⟩(kw:**(INPUT))",
-    "flatten": "λ return itertools.chain.from_iterable(INPUT)",
-    "flatmap": "map(P0) >> itertools.chain.from_iterable",
-    "map_items": "ID >> λ INPUT.items() >> map(into(P0)) >> dict >> MappingProxyType",
-    "map_keys": "map_items(λ (⟨P0⟩(INPUT0), INPUT1))",
-    "map_values": "map_items(λ (INPUT0, ⟨P0⟩(INPUT1)))",
-    "filter_items": "ID >> λ INPUT.items() >> filter(into(P0)) >> dict >> MappingProxyType",
-    "filter_keys": "filter_items(λ ⟨P0⟩(INPUT0))",
-    "filter_values": "filter_items(λ ⟨P0⟩(INPUT1))",
-    "concat": "λ itertools.chain(INPUT, ⟨P0⟩)",
-    "append": "concat(collections.evaluatable_tuple(Evaluatable.ensure(P0)))",
-    "intersect": "λ set(INPUT) & set(⟨P0⟩)",
-    "union": "λ set(INPUT) | set(⟨P0⟩)",
-    "difference": "λ set(INPUT) - set(⟨P0⟩)",
-    "symmetric_difference": "λ set(INPUT) ^ set(⟨P0⟩)",
-    "get": "λ _get(container=INPUT, key=⟨P0⟩, default=⟨P1⟩)",
-    "get_from": "λ _get(container=⟨P0⟩, key=INPUT, default=⟨P1⟩)",
-    "add": "λ INPUT + ⟨P0⟩",
-    "subtract": "λ INPUT - ⟨P0⟩",
-    "multiply": "λ INPUT * ⟨P0⟩",
-    "left_multiply": "λ ⟨P0⟩ * INPUT",
-    "divide_by": "λ INPUT / ⟨P0⟩",
-    "divide_into": "λ ⟨P0⟩ / INPUT",
-    "negate": "λ return -INPUT",
-    "modulo": "λ INPUT % ⟨P0⟩",
-    "merge": "λ {**INPUT, **⟨P0⟩}",
-    "length": "len",
-    "instance_of": "λ isinstance(INPUT, ⟨TUPLE(*P0)⟩)",
-    "all": "λ builtins.all((f(INPUT) for f in ⟨TUPLE(*P0)⟩))",
-    "any": "λ builtins.any((f(INPUT) for f in ⟨TUPLE(*P0)⟩))",
-    "invert": "λ not ⟨P0⟩(INPUT)",
-    "eq": "λ INPUT == ⟨P0⟩",
-    "ne": "λ INPUT != ⟨P0⟩",
-    "gt": "λ INPUT > ⟨P0⟩",
-    "ge": "λ INPUT >= ⟨P0⟩",
-    "lt": "λ INPUT < ⟨P0⟩",
-    "le": "λ INPUT <= ⟨P0⟩",
-    "has_remainder": "λ INPUT % ⟨P0⟩ == ⟨P1⟩",
-    "positive": "gt(0)",
-    "negative": "lt(0)",
-    "non_positive": "le(0)",
-    "non_negative": "ge(0)",
-    "even": "has_remainder(2, 0)",
-    "odd": "has_remainder(2, 1)",
-    "is_none": "λ INPUT is None",
-    "is_not_none": "invert(is_none)",
-    "is_in": "λ INPUT in ⟨P0⟩",
-    "is_not_in": "invert(is_in(P0))",
-    "one_of": "λ INPUT in ⟨TUPLE(*P0)⟩",
-    "none_of": "invert(one_of(*P0))",
-    "contains": "λ ⟨P0⟩ in INPUT",
-    "does_not_contain": "invert(contains(P0))",
-    "intersects": "intersect(P0) >> bool",
-    "disjoint_from": "invert(intersects(P0))",
-    "ensure": "λ _ensure(value=INPUT, predicate=⟨P0⟩, msg=⟨P1⟩)",
-    "get_attribute": "λ getattr(INPUT, ⟨P0⟩)",
-    "call_method": "λ _call_method(name=⟨P0⟩, args=⟨P1⟩, kwargs=⟨P2⟩, obj=INPUT)",
-}
-EXPECTED_PRIVATE = {
-    # behaviour as path outcomes: "<conditions> -> ret <value> | raise <error>"
-    "_reduce": ["cmp:Is(initial,Const(MISSING))=F -> ret call:functools.reduce(func,iterable,initial)",
-                "cmp:Is(initial,Const(MISSING))=T -> ret call:functools.reduce(func,iterable)"],
-    "_get": [" -> ret getitem(container,key)",
-             "cmp:Is(default,Const(MISSING))=F & except (KeyError, IndexError) -> ret default",
-             "cmp:Is(default,Const(MISSING))=T & except (KeyError, IndexError) -> raise exc-of(container)"],
-    "_ensure": ["call:predicate(value)=F -> raise new:AssertionError(msg)", "call:predicate(value)=T -> ret value"],
-    "_call_method": [" -> ret callres(getattr(obj,name),star(args),kw:**(kwargs))"],
+    'map': 'λ builtins.map(⟨P0⟩, INPUT)',
+    'filter': 'λ builtins.filter(⟨P0⟩, INPUT)',
+    'reduce': 'λ {cmp:Is(⟨P1⟩,Const(MISSING))=F -> ret call:functools.reduce(⟨P0⟩,INPUT,⟨P1⟩) | cmp:Is(⟨P1⟩,Const(MISSING))=T -> ret call:functools.reduce(⟨P0⟩,INPUT)}',
+    'into': 'step call:isinstance(INPUT,ext<typing.Mapping>)=F -> ret call:⟨P0⟩(star(INPUT)) | call:isinstance(INPUT,ext<typing.Mapping>)=T -> ret call:⟨P0⟩(kw:**(INPUT))',
+    'flatten': 'λ { -> ret Coll(elem(elem(INPUT)))}',
+    'flatmap': 'λ builtins.map(⟨P0⟩, INPUT) >> itertools.chain.from_iterable',
+    'map_items': 'ID >> λ INPUT.items() >> λ builtins.map(⟨step call:isinstance(INPUT,ext<typing.Mapping>)=F -> ret call:⟨P0⟩(star(INPUT)) | call:isinstance(INPUT,ext<typing.Mapping>)=T -> ret call:⟨P0⟩(kw:**(INPUT))⟩, INPUT) >> dict >> types.MappingProxyType',
+    'map_keys': 'ID >> λ INPUT.items() >> λ builtins.map(⟨step call:isinstance(INPUT,ext<typing.Mapping>)=F -> ret call:⟨λ (⟨P0⟩(INPUT0), INPUT1)⟩(star(INPUT)) | call:isinstance(INPUT,ext<typing.Mapping>)=T -> ret call:⟨λ (⟨P0⟩(INPUT0), INPUT1)⟩(kw:**(INPUT))⟩, INPUT) >> dict >> types.MappingProxyType',
+    'map_values': 'ID >> λ INPUT.items() >> λ builtins.map(⟨step call:isinstance(INPUT,ext<typing.Mapping>)=F -> ret call:⟨λ (INPUT0, ⟨P0⟩(INPUT1))⟩(star(INPUT)) | call:isinstance(INPUT,ext<typing.Mapping>)=T -> ret call:⟨λ (INPUT0, ⟨P0⟩(INPUT1))⟩(kw:**(INPUT))⟩, INPUT) >> dict >> types.MappingProxyType',
+    'filter_items': 'ID >> λ INPUT.items() >> λ builtins.filter(⟨step call:isinstance(INPUT,ext<typing.Mapping>)=F -> ret call:⟨P0⟩(star(INPUT)) | call:isinstance(INPUT,ext<typing.Mapping>)=T -> ret call:⟨P0⟩(kw:**(INPUT))⟩, INPUT) >> dict >> types.MappingProxyType',
+    'filter_keys': 'ID >> λ INPUT.items() >> λ builtins.filter(⟨step call:isinstance(INPUT,ext<typing.Mapping>)=F -> ret call:⟨λ ⟨P0⟩(INPUT0)⟩(star(INPUT)) | call:isinstance(INPUT,ext<typing.Mapping>)=T -> ret call:⟨λ ⟨P0⟩(INPUT0)⟩(kw:**(INPUT))⟩, INPUT) >> dict >> types.MappingProxyType',
+    'filter_values': 'ID >> λ INPUT.items() >> λ builtins.filter(⟨step call:isinstance(INPUT,ext<typing.Mapping>)=F -> ret call:⟨λ ⟨P0⟩(INPUT1)⟩(star(INPUT)) | call:isinstance(INPUT,ext<typing.Mapping>)=T -> ret call:⟨λ ⟨P0⟩(INPUT1)⟩(kw:**(INPUT))⟩, INPUT) >> dict >> types.MappingProxyType',
+    'concat': 'λ itertools.chain(INPUT, ⟨P0⟩)',
+    'append': 'λ itertools.chain(INPUT, ⟨tuple[[P0]]⟩)',
+    'intersect': 'λ set(INPUT) & set(⟨P0⟩)',
+    'union': 'λ set(INPUT) | set(⟨P0⟩)',
+    'difference': 'λ set(INPUT) - set(⟨P0⟩)',
+    'symmetric_difference': 'λ set(INPUT) ^ set(⟨P0⟩)',
+    'get': 'λ { -> ret getitem(INPUT,⟨P0⟩) | cmp:Is(⟨P1⟩,Const(MISSING))=F & except (KeyError, IndexError) -> ret ⟨P1⟩}',
+    'get_from': 'λ { -> ret getitem(⟨P0⟩,INPUT) | cmp:Is(⟨P1⟩,Const(MISSING))=F & except (KeyError, IndexError) -> ret ⟨P1⟩}',
+    'add': 'λ INPUT + ⟨P0⟩',
+    'subtract': 'λ INPUT - ⟨P0⟩',
+    'multiply': 'λ INPUT * ⟨P0⟩',
+    'left_multiply': 'λ ⟨P0⟩ * INPUT',
+    'divide_by': 'λ INPUT / ⟨P0⟩',
+    'divide_into': 'λ ⟨P0⟩ / INPUT',
+    'negate': 'λ { -> ret unop:USub(INPUT)}',
+    'modulo': 'λ INPUT % ⟨P0⟩',
+    'merge': 'λ {**INPUT, **⟨P0⟩}',
+    'length': 'len',
+    'instance_of': 'λ isinstance(INPUT, ⟨tuple[[*P0[*] …]]⟩)',
+    'all': 'λ builtins.all((f(INPUT) for f in ⟨tuple[[*P0[*] …]]⟩))',
+    'any': 'λ builtins.any((f(INPUT) for f in ⟨tuple[[*P0[*] …]]⟩))',
+    'invert': 'λ not ⟨P0⟩(INPUT)',
+    'eq': 'λ INPUT == ⟨P0⟩',
+    'ne': 'λ INPUT != ⟨P0⟩',
+    'gt': 'λ INPUT > ⟨P0⟩',
+    'ge': 'λ INPUT >= ⟨P0⟩',
+    'lt': 'λ INPUT < ⟨P0⟩',
+    'le': 'λ INPUT <= ⟨P0⟩',
+    'has_remainder': 'λ INPUT % ⟨P0⟩ == ⟨P1⟩',
+    'positive': 'λ INPUT > ⟨0⟩',
+    'negative': 'λ INPUT < ⟨0⟩',
+    'non_positive': 'λ INPUT <= ⟨0⟩',
+    'non_negative': 'λ INPUT >= ⟨0⟩',
+    'even': 'λ INPUT % ⟨2⟩ == ⟨0⟩',
+    'odd': 'λ INPUT % ⟨2⟩ == ⟨1⟩',
+    'is_none': 'λ INPUT is None',
+    'is_not_none': 'λ not ⟨labrea.functions.is_none⟩(INPUT)',
+    'is_in': 'λ INPUT in ⟨P0⟩',
+    'is_not_in': 'λ not ⟨λ INPUT in ⟨P0⟩⟩(INPUT)',
+    'one_of': 'λ INPUT in ⟨tuple[[*P0[*] …]]⟩',
+    'none_of': 'λ not ⟨λ INPUT in ⟨tuple[[*P0[*] …]]⟩⟩(INPUT)',
+    'contains': 'λ ⟨P0⟩ in INPUT',
+    'does_not_contain': 'λ not ⟨λ ⟨P0⟩ in INPUT⟩(INPUT)',
+    'intersects': 'λ set(INPUT) & set(⟨P0⟩) >> bool',
+    'disjoint_from': 'λ not ⟨λ set(INPUT) & set(⟨P0⟩) >> bool⟩(INPUT)',
+    'ensure': "cmp:Is(P1,Const(MISSING))=F ⇒ λ {call:⟨P0⟩(INPUT)=F -> raise new:AssertionError(⟨P1⟩) | call:⟨P0⟩(INPUT)=T -> ret INPUT} || cmp:Is(P1,Const(MISSING))=T ⇒ λ {call:⟨P0⟩(INPUT)=F -> raise new:AssertionError(⟨fstr('Predicate ', fmt!r(P0), ' failed')⟩) | call:⟨P0⟩(INPUT)=T -> ret INPUT}",
+    'get_attribute': 'λ getattr(INPUT, ⟨P0⟩)',
+    'call_method': 'λ { -> ret callres(getattr(INPUT,⟨P0⟩),star(⟨*P1⟩),kw:**(⟨**PK⟩))}',
 }
 
 
-def _drop_redundant_ensure(form: str) -> str:
-    """``evaluatable_tuple(Evaluatable.ensure(x))`` is ``evaluatable_tuple(x)``: the collection constructors hand every
-    element to Iter, which ensures it (idempotently)."""
-    import re
-    prev = None
-    while prev != form:
-        prev = form
-        form = re.sub(r"(evaluatable_\w+\((?:[^()]*,\s*)?)Evaluatable\.ensure\((\*?\w+)\)", r"\1\2", form)
-    return form
+def _public_helpers(mod) -> Dict[str, ast.AST]:
+    out: Dict[str, ast.AST] = {}
+    for s in mod.tree.body:
+        if isinstance(s, ast.FunctionDef) and not s.name.startswith("_") and not any("overload" in ast.unparse(d) for d in s.decorator_list):
+            out[s.name] = s
+        elif isinstance(s, ast.Assign) and len(s.targets) == 1 and isinstance(s.targets[0], ast.Name) and isinstance(s.value, ast.Call) and not s.targets[0].id.startswith("_"):
+            out[s.targets[0].id] = s
+    return out
 
 
-def _canon_outcomes(outs: List[str]) -> List[str]:
-    """Outcomes as a function of the conditions that matter: a path that only lets the failure it caught go on is the
-    outcome of not catching it (dropped, like failures outside any handler); two paths with the same result whose
-    conditions differ in the polarity of one test are one path without that test."""
-    items = []
-    for o in outs:
-        cs, _, res = o.partition(" -> ")
-        if res.startswith("raise exc-of"):
+def _helper_semantics(run: Run):
+    """name -> (node, forms, StepSem) for every public helper of labrea.functions that builds a step (cached per run)."""
+    cache = run.__dict__.setdefault("_helper_sem", None)
+    if cache is not None:
+        return cache
+    from . import stepsem
+    mod = run.repo.modules.get("labrea.functions")
+    if mod is None:
+        raise AnalysisError("labrea/functions.py not found")
+    out = {}
+    for name, node in _public_helpers(mod).items():
+        if name == "partial":
             continue
-        items.append((frozenset(c for c in cs.split(" & ") if c), res))
-    changed = True
-    while changed:
-        changed = False
-        for i in range(len(items)):
-            for j in range(i + 1, len(items)):
-                (ci, ri), (cj, rj) = items[i], items[j]
-                if ri != rj:
-                    continue
-                d = ci ^ cj
-                if len(d) == 2:
-                    a, b = sorted(d)
-                    if a[:-1] == b[:-1] and {a[-1], b[-1]} == {"T", "F"} and a[-2] == "=":
-                        items[i] = (ci & cj, ri)
-                        del items[j]
-                        changed = True
-                        break
-                elif not d:
-                    del items[j]
-                    changed = True
-                    break
-            if changed:
-                break
-    return sorted(" & ".join(sorted(c)) + " -> " + r_ for c, r_ in items)
+        if isinstance(node, ast.FunctionDef):
+            forms, sem = stepsem.helper_forms(run.repo, mod, node)
+        else:
+            forms, sem = stepsem.instance_forms(run.repo, mod, node.value, node.lineno)
+        if forms:
+            out[name] = (node, forms, sem)
+    run.__dict__["_helper_sem"] = (mod, out)
+    return mod, out
 
 
 def rule_HO(run: Run) -> RuleResult:
     res = RuleResult("R-HO")
     nec = ("each helper step computes the documented Python operation with the documented operand "
            "order (subtract: input - x, divide_into: x / input, get vs get_from, contains vs is_in …)")
-    nz = Normaliser(run)
-    f = nz.mod.relpath
-    names = [n for n in list(nz.funcs) + list(nz.instances) if not n.startswith("_") and n not in ("partial",)]
-    n_red = 0
-    for name in names:
-        form = nz.helper_form(name)
-        node = nz.funcs.get(name) or nz.instances.get(name)
-        if form is None:
-            continue
-        n_red += 1
+    mod, sems = _helper_semantics(run)
+    f = mod.relpath
+    for name, (node, forms, sem) in sems.items():
+        form = " || ".join(forms)
         want = EXPECTED.get(name)
         if want is None:
             res.notes.append(f"helper {name} has no table row (form: {form}) — not judged")
             continue
-        form, want = _drop_redundant_ensure(form), _drop_redundant_ensure(want)
         res.add(f"labrea.functions.{name}:operand order", form == want, f, node.lineno,
                 f"derived `{form}`" + ("" if form == want else f" — documented behaviour is `{want}`"), nec)
-    for name, want in EXPECTED_PRIVATE.items():
-        fn = nz.funcs.get(name)
-        if fn is None:
-            continue
-        form = _canon_outcomes(outcomes(run.repo, nz.mod, fn))
-        want = _canon_outcomes(want)
-        res.add(f"labrea.functions.{name}:body", form == want, f, fn.lineno, f"outcomes {form}" + ("" if form == want else f" — expected {want}"), nec)
-    res.count("helpers", n_red)
-    if n_red < 55:
-        raise AnalysisError(f"only {n_red} helper steps reduced (61 confirmed by hand)")
+    missing = sorted(set(EXPECTED) - set(sems))
+    for name in missing:
+        res.add(f"labrea.functions.{name}:operand order", False, f, 0, "the helper is gone or no longer builds a pipeline step", nec)
+    res.count("helpers", len(sems))
+    if len(sems) < 55:
+        raise AnalysisError(f"only {len(sems)} helper steps reduced (61 confirmed by hand)")
     # PartialApplication.lift / partial(): helper parameters are positional/keyword arguments of the partial
-    pf = nz.funcs.get("partial")
+    pf = next((s for s in mod.tree.body if isinstance(s, ast.FunctionDef) and s.name == "partial"), None)
     ok = pf is not None
     if ok:
         from .interp import analyse_function
-        pps_ = analyse_function(Ctx(run.repo), nz.mod, pf)
+        pps_ = analyse_function(Ctx(run.repo), mod, pf)
         fp_ = [a.arg for a in pf.args.posonlyargs + pf.args.args][0]
         ok = bool(pps_) and all(p.status == "ret" and isinstance(p.ret, New) and p.ret.cls.name == "PartialApplication" and p.ret.attrs.get("func") is not None
                                 and fp_ in p.ret.attrs["func"].key() and "*args" in p.ret.key() and "**kwargs" in p.ret.key() for p in pps_)
@@ -453,47 +158,24 @@ def rule_HF(run: Run) -> RuleResult:
     res = RuleResult("R-HF")
     nec = ("a helper parameter captured in a closure instead of being handed to partial()/PipelineStep "
            "is frozen at construction and hidden from keys()/explain(): add(Option('X')) would add the Option object")
-    nz = Normaliser(run)
-    f = nz.mod.relpath
+    mod, sems = _helper_semantics(run)
+    f = mod.relpath
     n = 0
-    for name, fn in nz.funcs.items():
-        if name.startswith("_") or name == "partial":
+    for name, (fn, forms, sem) in sems.items():
+        if not isinstance(fn, ast.FunctionDef):
             continue
-        params = []
-        for a in fn.args.posonlyargs + fn.args.args + fn.args.kwonlyargs + ([fn.args.vararg] if fn.args.vararg else []):
+        names = [a.arg for a in fn.args.posonlyargs + fn.args.args + fn.args.kwonlyargs]
+        allp = fn.args.posonlyargs + fn.args.args + fn.args.kwonlyargs + ([fn.args.vararg] if fn.args.vararg else [])
+        for a in allp:
             ann = ast.unparse(a.annotation) if a.annotation is not None else ""
-            if "MaybeEvaluatable" in ann or name in ("eq", "ne", "gt", "ge", "lt", "le"):
-                params.append(a.arg)
-        for p_ in params:
+            if not ("MaybeEvaluatable" in ann or name in ("eq", "ne", "gt", "ge", "lt", "le")):
+                continue
             n += 1
-            captured = []
-            for x in ast.walk(fn):
-                if isinstance(x, ast.Lambda):
-                    if astu.contains_name(x.body, p_) and p_ not in {a.arg for a in x.args.args}:
-                        captured.append(x)
-                elif isinstance(x, ast.FunctionDef) and x is not fn:
-                    for s in x.body:
-                        if astu.contains_name(s, p_):
-                            captured.append(x)
-            # handed on as an argument somewhere in the returned step
-            passed = False
-            amap_f = astu.single_assign_map(fn)
-            for r in astu.walk_no_nested(fn):
-                rv_ = astu.expand_locals(r.value, {k: v for k, v in amap_f.items() if k != p_}) if isinstance(r, ast.Return) and r.value is not None else None
-                if isinstance(rv_, ast.Call) and rv_.args:
-                    a0_ = astu.expand_locals(rv_.args[0], {k: v for k, v in amap_f.items() if k != p_})
-                    for c in [a0_] + list(astu.calls_in(a0_)):
-                        if isinstance(c, ast.Call):
-                            for a in list(c.args) + [k.value for k in c.keywords]:
-                                if astu.contains_name(a, p_) and not isinstance(a, ast.Lambda):
-                                    passed = True
-            for x in ast.walk(fn):
-                if isinstance(x, ast.FunctionDef) and x is not fn:
-                    for d in x.args.defaults + [k for k in x.args.kw_defaults if k is not None]:
-                        if astu.contains_name(d, p_):
-                            passed = True
+            tag = f"P{names.index(a.arg)}" if a.arg in names else f"P{len(names)}"
+            captured = [c for c in sem.captured if tag in c]
+            passed = tag in sem.evaluated
             ok = passed and not captured
-            res.add(f"labrea.functions.{name}:{p_} flows into the step as an evaluated argument", ok, f, fn.lineno,
+            res.add(f"labrea.functions.{name}:{a.arg} flows into the step as an evaluated argument", ok, f, fn.lineno,
                     "passed to partial()/helper as an argument" if ok else ("captured in a closure" if captured else "never handed to the step"), nec)
     res.count("parameters", n)
     if n < 45:
